@@ -40,6 +40,8 @@ def run(ctx):
     r6(ctx)
     r7(ctx)
     ctx.min_instances('C14.R7', 2)
+    r8(ctx)
+    ctx.min_instances('C14.R8', 3)
     ctx.min_instances('C14.R1', 2)
     ctx.min_instances('C14.R2', 8)
     ctx.min_instances('C14.R3', 6)
@@ -491,3 +493,68 @@ def r7(ctx):
                             'under %s: steps for which that is false lose '
                             'their grids' % bad,
                             key=m.full + ' | accumulation guard')
+
+
+# ---------------------------------------------------------------------------
+# R8: constructor chain does not undo argument-derived attributes
+
+def ctor_stores(repo, ci, depth=0):
+    """Ordered [(attr, value, func, stmt)] of `self.<attr> = ...` stores that
+    ci.__init__ executes, following explicit Base.__init__(self, ...) calls
+    in statement order."""
+    out = []
+    m = ci.methods.get('__init__')
+    if m is None or depth > 4:
+        return out
+    events = []
+    for n in ast.walk(m.node):
+        if isinstance(n, ast.Assign):
+            for t in n.targets:
+                if isinstance(t, ast.Attribute) and isinstance(
+                        t.value, ast.Name) and t.value.id == 'self':
+                    events.append((n.lineno, 0, t.attr, n.value, n))
+        elif isinstance(n, ast.Call) and (call_name(n) or '').endswith(
+                '.__init__') and n.args and src(n.args[0]) == 'self':
+            bc = repo.resolve_class(m.mod, call_name(n)[:-9])
+            if bc is not None:
+                events.append((n.lineno, 1, bc, None, n))
+    events.sort(key=lambda e: e[0])
+    for ln, kind, a, v, node in events:
+        if kind == 0:
+            out.append((a, v, m, node))
+        else:
+            out += ctor_stores(repo, a, depth + 1)
+    return out
+
+
+def r8(ctx):
+    repo = ctx.repo
+    n = 0
+    for ci in repo.all_classes():
+        if not ci.mod.name.startswith(('dassh.region', 'dassh.assembly')):
+            continue
+        if '__init__' not in ci.methods:
+            continue
+        first = {}
+        bad = []
+        for a, v, f, node in ctor_stores(repo, ci):
+            names = {x.id for x in ast.walk(v) if isinstance(x, ast.Name)}
+            from_arg = bool(names & (set(f.params) - {'self'}))
+            if a in first and not from_arg and isinstance(v, ast.Constant):
+                bad.append((a, first[a], f, node))
+            if from_arg and a not in first:
+                first[a] = '%s line %d' % (f.qual, node.lineno)
+        n += 1
+        for a, where, f, node in bad:
+            ctx.violation('C14.R8', f, node,
+                          'constructing a %s sets self.%s from a constructor '
+                          'argument (%s) and then runs %s, which resets it to '
+                          'the constant %s: the argument is silently ignored'
+                          % (ci.name, a, where, f.qual, src(node.value)),
+                          key='%s | %s reset by %s' % (ci.full, a, f.qual))
+        if not bad:
+            ctx.ok('C14.R8', ci.methods['__init__'], None,
+                   '%d argument-derived attributes survive the constructor '
+                   'chain' % len(first))
+    if n < 3:
+        raise AnalysisError('C14.R8: region classes not found')
